@@ -68,7 +68,7 @@ func (f *Fn) canon(e ast.Expr, depth int) string {
 				}
 			}
 			if o.IsField() {
-				return "." + o.Name()
+				return "." + f.P.nameOf(o)
 			}
 			if o.Parent() == o.Pkg().Scope() {
 				return pkgShort(o.Pkg()) + "." + o.Name()
@@ -89,7 +89,7 @@ func (f *Fn) canon(e ast.Expr, depth int) string {
 			}
 			return "local(" + o.Name() + ")"
 		case *types.Func:
-			return pkgShort(o.Pkg()) + "." + o.Name()
+			return pkgShort(o.Pkg()) + "." + f.P.nameOf(o)
 		case *types.TypeName:
 			if o.Pkg() == nil {
 				return o.Name()
@@ -107,7 +107,7 @@ func (f *Fn) canon(e ast.Expr, depth int) string {
 			if strings.HasPrefix(base, "&") {
 				base = base[1:] // (&v).f is v.f
 			}
-			return base + "." + x.Sel.Name
+			return base + "." + f.P.nameOf(sel.Obj())
 		}
 		// qualified identifier
 		return f.canon(x.Sel, depth)
